@@ -17,7 +17,7 @@ pub fn run<P: Property>(data: &[u8]) {
     HOOK.get_or_init(install_silent_panic_hook);
     let mut tape = data.to_vec();
     let mut x = hash_of(data) | 1;
-    while tape.len() < data.len() + 8192 {
+    while tape.len() < data.len() + 262_144 {
         x ^= x << 13;
         x ^= x >> 7;
         x ^= x << 17;
